@@ -496,6 +496,8 @@ type input struct {
 	Hash             string `json:"hash,omitempty"`
 	Seed             uint64 `json:"seed,omitempty"`
 	Desc             string `json:"desc,omitempty"`
+	IssKT            string `json:"isskt,omitempty"` // delegated: key type of the issuer of the responder certificate
+	IssCurve         int    `json:"isscurve,omitempty"`
 }
 
 var keysets = map[uint64]*keyset{}
@@ -1305,8 +1307,117 @@ func forgeryOracle(c *vh.Ctx, keySeed uint64, seed uint64) {
 	}
 }
 
+// OCSP responses signed by a delegated responder: the responder certificate is issued by the issuer
+// (library's own CreateCertificate, OCSPSigning EKU) and embedded in the response.  ParseResponse with the
+// issuer must accept the genuine response and reject it when the signed bytes, the signature, the signing
+// key or the claimed algorithm is changed — the embedded certificate chaining to the issuer must not make
+// the response signature irrelevant.
+func delegatedOracle(c *vh.Ctx, keySeed uint64, respKT, issKT ktype, req int, seed uint64) {
+	ks := getKeys(keySeed)
+	r := &rng{s: seed}
+	in := input{Kind: "delegated", KeySeed: keySeed, KT: respKT.name, Curve: respKT.curve, IssKT: issKT.name, IssCurve: issKT.curve, Req: req, Seed: seed}
+	fail := func(key, desc string) {
+		c.Violation(key, fmt.Sprintf("OCSP response by a delegated %s%d responder (certificate issued by %s%d), algorithm %d: %s", respKT.name, respKT.curve, issKT.name, issKT.curve, req, desc), "oracle", in)
+	}
+	issuer := ks.cert(issKT, 0)
+	if issuer == nil {
+		return
+	}
+	responder := ks.signer(respKT, 1)
+	rtpl := &x509.Certificate{SerialNumber: big.NewInt(77), Subject: pkix.Name{CommonName: "delegated responder"}, NotBefore: now.Add(-time.Hour), NotAfter: now.Add(240 * time.Hour),
+		KeyUsage: x509.KeyUsageDigitalSignature, ExtKeyUsage: []x509.ExtKeyUsage{x509.ExtKeyUsageOcspSigning}, BasicConstraintsValid: true}
+	rder, err := x509.CreateCertificate(&rng{s: 3}, rtpl, issuer, responder.Public(), ks.signer(issKT, 0))
+	if err != nil {
+		return
+	}
+	rcert, err := x509.ParseCertificate(rder)
+	if err != nil {
+		fail("delegated-cert-unparseable", err.Error())
+		return
+	}
+	mk := func(priv crypto.Signer) ([]byte, error) {
+		return ocsp.CreateResponse(issuer, rcert, ocsp.Response{Status: ocsp.Good, SerialNumber: big.NewInt(9), ThisUpdate: now, NextUpdate: now.Add(time.Hour),
+			SignatureAlgorithm: x509.SignatureAlgorithm(req), Certificate: rcert}, priv)
+	}
+	parse := func(der []byte, iss *x509.Certificate) (err error) {
+		defer func() {
+			if rec := recover(); rec != nil {
+				err = nil
+				fail("parse-panics", fmt.Sprint(rec))
+				err = errors.New("panic")
+			}
+		}()
+		_, err = ocsp.ParseResponse(der, iss)
+		return err
+	}
+	der, err := mk(responder)
+	if err != nil {
+		return // the API does not accept this key type / algorithm
+	}
+	c.Eval(fmt.Sprintf("delegated|%s%d|%s%d|%d", respKT.name, respKT.curve, issKT.name, issKT.curve, req))
+	c.Stat("oracle.delegated.created", 1)
+	if err := parse(der, issuer); err != nil {
+		fail("delegated-genuine-rejected", "the genuine response is rejected by ParseResponse with the issuer: "+err.Error())
+		return
+	}
+	if err := parse(der, nil); err != nil {
+		fail("delegated-genuine-rejected", "the genuine response is rejected by ParseResponse without issuer: "+err.Error())
+	}
+	o, derr := dissect("ocsp", der)
+	if derr != nil {
+		fail("own-object-unparseable", derr.Error())
+		return
+	}
+	both := func(what string, d2 []byte) {
+		for _, iss := range []*x509.Certificate{issuer, nil} {
+			if parse(d2, iss) == nil {
+				with := "with the issuer"
+				if iss == nil {
+					with = "without issuer"
+				}
+				fail("delegated-"+strings.ReplaceAll(what, " ", "-")+"-accepted", "ParseResponse "+with+" accepts the response although its "+what+" was changed")
+			}
+		}
+	}
+	// changed message / signature
+	for i := 0; i < 6; i++ {
+		d2 := append([]byte{}, der...)
+		d2[o.tbsOff+r.Intn(len(o.tbs))] ^= 1 << uint(r.Intn(8))
+		both("message", d2)
+		d3 := append([]byte{}, der...)
+		d3[o.sigOff+r.Intn(len(o.sig))] ^= 1 << uint(r.Intn(8))
+		both("signature", d3)
+	}
+	// claimed algorithm: last byte of the AlgorithmIdentifier's OID (it follows the signed bytes)
+	algOff := o.tbsOff + len(o.tbs)
+	if algOff+4 < len(der) && der[algOff] == 0x30 && der[algOff+2] == 0x06 {
+		d2 := append([]byte{}, der...)
+		d2[algOff+3+int(der[algOff+3])] ^= 1
+		both("algorithm", d2)
+	}
+	// signed by an unrelated key (same type, and the issuer's own key), same embedded certificate
+	for _, other := range []crypto.Signer{ks.signer(respKT, 0), ks.signer(issKT, 0)} {
+		if d2, err := mk(other); err == nil && !bytes.Equal(d2, der) {
+			both("signing key", d2)
+		}
+	}
+	// the embedded certificate does not chain to another issuer
+	for _, ok := range []ktype{{"rsa", 0}, {"ec", 2}} {
+		if oi := ks.cert(ok, 1); oi != nil && parse(der, oi) == nil {
+			fail("delegated-wrong-issuer-accepted", "accepted with an issuer that did not issue the responder certificate")
+		}
+	}
+}
+
 func oracle(c *vh.Ctx, keySeed uint64, r *rng) {
 	forgeryOracle(c, keySeed, r.U64())
+	for _, iss := range []ktype{{"rsa", 0}, {"ec", 2}, {"ed", 0}} {
+		for _, resp := range []ktype{{"rsa", 0}, {"ec", 1}, {"ec", 2}, {"ec", 3}, {"ec", 4}, {"ed", 0}} {
+			for req := 0; req <= 18; req++ {
+				delegatedOracle(c, keySeed, resp, iss, req, r.U64())
+			}
+		}
+	}
 	for _, api := range apis {
 		for _, k := range signKTs {
 			for req := 0; req <= 18; req++ {
@@ -1335,6 +1446,8 @@ func replay(c *vh.Ctx, raw json.RawMessage) {
 		cellOracle(c, in.KeySeed, cellIn{in.API, in.KT, in.Curve, in.Req}, in.Seed)
 	case "forgery":
 		forgeryOracle(c, in.KeySeed, in.Seed)
+	case "delegated":
+		delegatedOracle(c, in.KeySeed, ktype{in.KT, in.Curve}, ktype{in.IssKT, in.IssCurve}, in.Req, in.Seed)
 	default:
 		panic("unknown replay kind " + in.Kind)
 	}
